@@ -75,6 +75,14 @@ Definition reg_step (s : step) (r : registry) : registry :=
   | STraffic _ => r
   end.
 
+(** a history without the envelopes that were received: only what changed the registry *)
+Fixpoint strip_traffic (ss : list step) : list step :=
+  match ss with
+  | [] => []
+  | STraffic _ :: t => strip_traffic t
+  | s :: t => s :: strip_traffic t
+  end.
+
 Fixpoint reg_after (ss : list step) (r : registry) : registry :=
   match ss with
   | [] => r
